@@ -625,7 +625,11 @@ func genSchedPlan(seed uint64, pool []plan.Op, byLang map[int][]int, neutral []i
 			}
 		}
 		if len(news) > 0 {
-			for t := 0; t < r.Range(5, 8); t++ {
+			n := r.Range(5, 8)
+			if r.Intn(3) == 0 { // a crowd: more callers than any plausible fixed-size arena, semaphore or shard count
+				n = r.Range(9, 40)
+			}
+			for t := 0; t < n; t++ {
 				ops := []plan.Op{pool[news[r.Intn(len(news))]]}
 				if r.Intn(3) == 0 {
 					ops = append(ops, pool[news[r.Intn(len(news))]])
@@ -657,6 +661,22 @@ func genSchedPlan(seed uint64, pool []plan.Op, byLang map[int][]int, neutral []i
 			}
 			nt = 0
 			gcPressure = true
+		}
+	}
+	if nt > 0 && r.Intn(25) == 0 { // a crowd of callers with one cheap call each ("any number of goroutines")
+		var cheap []int
+		for _, i := range cand {
+			if pool[i].K != "seed" {
+				cheap = append(cheap, i)
+			}
+		}
+		if len(cheap) > 0 {
+			for t := 0; t < r.Range(12, 48); t++ {
+				op := pool[cheap[r.Intn(len(cheap))]]
+				op.Scribble, op.Cap = false, 0
+				sp.Tasks = append(sp.Tasks, []plan.Op{op})
+			}
+			nt = 0
 		}
 	}
 	for t := 0; t < nt; t++ {
@@ -993,7 +1013,7 @@ func CheckC12(e *Env) (int, error) {
 		"raw_violations":                         len(viols),
 		"outcome_digest":                         od.String(),
 		"run_budget":                             map[string]interface{}{"runs_requested": maxRuns, "wall_cap_s": budget.Seconds(), "stopped_by_wall_cap": runs < maxRuns && len(viols) < 12},
-		"bounds":                                 "<= 8 tasks x <= 4 calls, <= 2e6 steps, no preemption inside standard-library or x/ calls (races there are still detected: detection is happens-before based)",
+		"bounds":                                 "2-8 tasks x 1-4 calls (4% of runs: a crowd of 9-48 tasks x 1 call), <= 2e6 steps, no preemption inside standard-library or x/ calls (races there are still detected: detection is happens-before based)",
 	}
 	if err := e.WriteEvidence("C12", "exploration", cov, []string{
 		"the Go race detector is sound for what it reports and incomplete (bounded shadow history)",
